@@ -33,3 +33,6 @@ def run(ctx, rep):
     from ..rules import more5
     more5.rule_snode_tests(mod, rep)
     more5.rule_row_cursor(mod, rep)
+    from ..rules import more6 as _m6c
+    _m6c.rule_prune_split(mod, rep)
+    _m6c.rule_dfs_busy(mod, rep)
